@@ -53,6 +53,20 @@ func TestC20(t *testing.T) {
 				{"relative context, working directory changed after the context was loaded", func(r *vrun.EngineRequest) {
 					r.RelativeContext, r.Chdir, r.ChdirAfterLoad = true, "scratch", "elsewhere"
 				}},
+				{"engine object that parsed and ran another tree with the same file names before", func(r *vrun.EngineRequest) {
+					// the other tree: every sub-workflow returns a constant instead of its steps' results
+					r.PriorFiles = map[string]string{}
+					for name, text := range files {
+						raw, _ := base64.StdEncoding.DecodeString(text)
+						if name != mainName {
+							if i := strings.Index(string(raw), "\noutputs:"); i >= 0 {
+								raw = []byte(string(raw)[:i] + "\noutputs:\n  \"success\":\n    \"r\": \"from the other tree\"\n")
+							}
+						}
+						r.PriorFiles[name] = b64(string(raw))
+					}
+					r.PriorInputB64 = r.InputB64
+				}},
 				{"in-memory main file", func(r *vrun.EngineRequest) { r.InMemory = true }},
 				{"in-memory main file + sub-workflows preloaded", func(r *vrun.EngineRequest) { r.InMemory, r.ExtraInMemory = true, subNames }},
 			}
